@@ -85,7 +85,7 @@ def lean_files_of(modules):
     return seen
 
 
-def theorem_names(module):
+def theorem_names(module, include_private=False):
     path = os.path.join(LEAN, module.replace(".", "/") + ".lean")
     src = strip_lean_comments(open(path).read())
     names, ns = [], []
@@ -96,9 +96,11 @@ def theorem_names(module):
         m = re.match(r"\s*end\s+(\S+)", line)
         if m and ns and ns[-1] == m.group(1):
             ns.pop(); continue
-        m = re.match(r"\s*(?:@\[[^\]]*\]\s*)?(?:private\s+|protected\s+)?(theorem|lemma)\s+([^\s:({\[]+)", line)
+        m = re.match(r"\s*(?:@\[[^\]]*\]\s*)?(private\s+|protected\s+)?(theorem|lemma)\s+([^\s:({\[]+)", line)
         if m:
-            nm = m.group(2)
+            if (m.group(1) or "").startswith("private") and not include_private:
+                continue   # not nameable from outside; covered transitively by the public theorems using it
+            nm = m.group(3)
             if nm.startswith("_root_."):
                 names.append(nm[len("_root_."):])
             else:
@@ -123,8 +125,8 @@ def lean_audit(pid, prop_modules, all_modules):
     thms = []
     for m in all_modules:
         if ".Props." in m or ".Lemmas." in m or ".Generated." in m:
-            thms += [(m, t) for t in theorem_names(m)]
-    prop_thms = [t for (m, t) in thms if m in prop_modules]
+            thms += [(m, t) for t in theorem_names(m, include_private=True)]
+    prop_thms = [t for m in prop_modules for t in theorem_names(m)]
     os.makedirs(os.path.join(WORK, pid), exist_ok=True)
     audit = os.path.join(WORK, pid, "Audit.lean")
     with open(audit, "w") as f:
